@@ -2,6 +2,7 @@ import SamVerif.Lemmas.Doc
 import SamVerif.Lemmas.CommentQueue
 import SamVerif.Lemmas.Imports
 import SamVerif.Model.Attach
+import SamVerif.Lemmas.ExprDoc
 /-!
 # C09 — Formatting is idempotent and keeps every comment
 
@@ -448,6 +449,28 @@ theorem attach_same_text (extra : List Comment) (e : CE) (h : NF e) :
   rw [printCE_attachLeft extra e h]
   cases e <;> simp [attachOuter, printCE]
 
+theorem printCE_lead_rest (e : CE) (h : NF e) : printCE e = (lead e).map .comment ++ rest e := by
+  induction e with
+  | leaf cs a => rfl
+  | post cs e p ih => obtain ⟨rfl, he⟩ := h; simp [printCE, lead, rest, ih he]
+  | bin cs l ocs o r ihl _ => obtain ⟨rfl, hl, _⟩ := h; simp [printCE, lead, rest, ihl hl]
+
+/-- **Unwrapping parentheses keeps the source order**: the text of the inner expression becomes
+`(`-comments, its own leading comments, `)`-comments, then the rest unchanged. -/
+theorem printCE_wrapLeft (start stop : List Comment) (e : CE) (h : NF e) :
+    printCE (wrapLeft start stop e) =
+      start.map .comment ++ (lead e).map .comment ++ stop.map .comment ++ rest e := by
+  induction e with
+  | leaf cs a => simp [wrapLeft, printCE, lead, rest]
+  | post cs e p ih => obtain ⟨rfl, he⟩ := h; simp [wrapLeft, printCE, lead, rest, ih he]
+  | bin cs l ocs o r ihl _ => obtain ⟨rfl, hl, _⟩ := h; simp [wrapLeft, printCE, lead, rest, ihl hl]
+
+theorem nf_wrapLeft (start stop : List Comment) (e : CE) (h : NF e) : NF (wrapLeft start stop e) := by
+  induction e with
+  | leaf cs a => trivial
+  | post cs e p ih => exact ⟨h.1, ih h.2⟩
+  | bin cs l ocs o r ihl _ => exact ⟨h.1, ihl h.2.1, h.2.2⟩
+
 /-- **The fixed policy is stable under re-reading, the old one was not**: with `attachLeft` the
 parser's result already is the tree that reading the printed text gives back … -/
 theorem attachLeft_stable (extra : List Comment) (e : CE) (h : NF e) :
@@ -464,3 +487,115 @@ theorem attachOuter_unstable_counterexample :
   decide
 
 end SamVerif.Attach
+
+namespace SamVerif.ExprDoc
+open SamVerif.Doc
+open SamVerif.CommentQueue (Comment)
+
+/-! ## Document construction of the arithmetic expression fragment (`Model/ExprDoc.lean`)
+
+Tied by protocol `exprdoc`: `docOf` of the parsed expression equals the real `Document`
+(`create_doc`, hook `expression_doc`) structurally, for generated expressions with comments. -/
+
+theorem wrapP_chars (c : Prop) [Decidable c] (xs : List Item) :
+    (wrapP (decide c) xs).flatMap itemChars =
+      (if c then ['('] else []) ++ xs.flatMap itemChars ++ (if c then [')'] else []) := by
+  by_cases h : c
+  · have h1 : itemChars (.tok ['(']) = ['('] := by decide
+    have h2 : itemChars (.tok [')']) = [')'] := by decide
+    simp [wrapP, h, h1, h2]
+  · simp [wrapP, h]
+
+theorem comments_chars (cs : List Comment) :
+    (cs.map Item.comment).flatMap itemChars = cs.flatMap commentChars := by
+  induction cs with
+  | nil => rfl
+  | cons c cs ih => simp [itemChars, ih]
+
+theorem subDoc_ok (c : Prop) [Decidable c] (d : Doc) (hd : Agree commentKey d) :
+    Agree commentKey (if c then parenDoc d else d) ∧
+      val commentKey (if c then parenDoc d else d) =
+        (if c then ['('] else []) ++ val commentKey d ++ (if c then [')'] else []) := by
+  by_cases h : c
+  · simpa [h] using parenDoc_ok d hd
+  · simpa [h] using hd
+
+theorem operatorDoc_ok (o : BinOp) :
+    Agree commentKey (operatorDoc o) ∧ val commentKey (operatorDoc o) = nonWs (opStr o) := by
+  refine ⟨⟨trivial, trivial, trivial⟩, ?_⟩
+  cases o <;> decide
+
+/-- **The document of an expression has agreeing `Union`s and its content is exactly the printed
+comment/token sequence** (comments with their delimiters, operators, parentheses where the printer
+decides to keep them). -/
+theorem docOf_ok (e : AExpr) :
+    Agree commentKey (docOf e) ∧ val commentKey (docOf e) = (printA e).flatMap itemChars := by
+  induction e with
+  | atom cs name =>
+    have h := optPreceding_ok cs (.nstext name) trivial
+    refine ⟨h.1, ?_⟩
+    rw [docOf, h.2]
+    simp [printA, comments_chars, itemChars, val, commentKey]
+  | unary cs u e ih =>
+    have hs := subDoc_ok (e.prec ≥ 2) (docOf e) ih.1
+    have hu : commentKey.text (uopStr u) = nonWs (uopStr u) := by cases u <;> decide
+    have hm : Agree commentKey (.concat (.text (uopStr u)) (if e.prec ≥ 2 then parenDoc (docOf e) else docOf e)) :=
+      ⟨trivial, hs.1⟩
+    have h := optPreceding_ok cs _ hm
+    refine ⟨by simpa [docOf] using h.1, ?_⟩
+    simp only [docOf, h.2, val, hs.2, hu, printA, List.flatMap_append, comments_chars, wrapP_chars, ih.2,
+      List.flatMap_cons, List.flatMap_nil, itemChars, List.append_nil, List.append_assoc]
+  | binary cs o ocs l r ihl ihr =>
+    have hsl := subDoc_ok (l.prec ≥ 4 + o.pprec) (docOf l) ihl.1
+    have hsr := subDoc_ok (r.prec ≥ 4 + o.pprec) (docOf r) ihr.1
+    have hoc := opCommentsDoc_ok ocs
+    have hop := operatorDoc_ok o
+    have hvl := hsl.2
+    have hvr := hsr.2
+    have hal := hsl.1
+    have har := hsr.1
+    simp only [docOf, printA]
+    split
+    · have hm : Agree commentKey (concatV ([docOf l] ++ [opCommentsDoc ocs, operatorDoc o] ++
+          [if r.prec ≥ 4 + o.pprec then parenDoc (docOf r) else docOf r])) :=
+        ⟨ihl.1, hoc.1, hop.1, har⟩
+      have h := optPreceding_ok cs _ hm
+      refine ⟨h.1, ?_⟩
+      rw [h.2]
+      simp only [List.singleton_append, List.cons_append, List.nil_append, concatV, val, ihl.2, hoc.2, hop.2, hvr,
+        List.flatMap_append, comments_chars, wrapP_chars, ihr.2, List.flatMap_cons, List.flatMap_nil,
+        itemChars, List.append_nil, List.append_assoc]
+    · split
+      · have hm : Agree commentKey (concatV ([if l.prec ≥ 4 + o.pprec then parenDoc (docOf l) else docOf l] ++
+            [opCommentsDoc ocs, operatorDoc o] ++ [docOf r])) :=
+          ⟨hal, hoc.1, hop.1, ihr.1⟩
+        have h := optPreceding_ok cs _ hm
+        refine ⟨h.1, ?_⟩
+        rw [h.2]
+        simp only [List.singleton_append, List.cons_append, List.nil_append, concatV, val, ihl.2, hoc.2, hop.2, hvl,
+          List.flatMap_append, comments_chars, wrapP_chars, ihr.2, List.flatMap_cons, List.flatMap_nil,
+          itemChars, List.append_nil, List.append_assoc]
+      · have hm : Agree commentKey (concatV ([if l.prec ≥ 4 + o.pprec then parenDoc (docOf l) else docOf l] ++
+            [opCommentsDoc ocs, operatorDoc o] ++
+            [if r.prec ≥ 4 + o.pprec then parenDoc (docOf r) else docOf r])) :=
+          ⟨hal, hoc.1, hop.1, har⟩
+        have h := optPreceding_ok cs _ hm
+        refine ⟨h.1, ?_⟩
+        rw [h.2]
+        simp only [List.singleton_append, List.cons_append, List.nil_append, concatV, val, ihl.2, hoc.2, hop.2, hvl,
+          hvr, List.flatMap_append, comments_chars, wrapP_chars, ihr.2, List.flatMap_cons,
+          List.flatMap_nil, itemChars, List.append_nil, List.append_assoc]
+
+/-- **For every width, the laid-out expression consists of exactly its comments and tokens**, in
+print order (whitespace and repeated comment leaders aside): the layout engine and the document
+construction together neither lose nor reorder anything on this fragment. -/
+theorem expression_layout_text (w : Nat) (e : AExpr) :
+    tval commentKey (tokens w (docOf e)) = (printA e).flatMap itemChars := by
+  rw [layout_preserves_text commentKey w _ (docOf_ok e).1, (docOf_ok e).2]
+
+/-- Hence the non-whitespace text of a formatted expression does not depend on the width. -/
+theorem expression_layout_width_irrelevant (w₁ w₂ : Nat) (e : AExpr) :
+    tval commentKey (tokens w₁ (docOf e)) = tval commentKey (tokens w₂ (docOf e)) := by
+  rw [expression_layout_text, expression_layout_text]
+
+end SamVerif.ExprDoc
